@@ -56,6 +56,12 @@ def build_cases(rng, th, scratch, ndirs, per_dir):
                 fp = os.path.join(root, extra)
                 os.makedirs(os.path.dirname(fp), exist_ok=True)
                 open(fp, "wb").write(b"unrelated")
+            # unrelated files BELOW a recognised name: that name is then a directory, not one of the recognised files
+            absent = [p for p, fid in paths if fid not in files]
+            for p in rng.sample(absent, min(len(absent), rng.choice([0, 1, 2]))):
+                fp = os.path.join(root, p, "readme.txt")
+                os.makedirs(os.path.dirname(fp), exist_ok=True)
+                open(fp, "wb").write(b"unrelated")
             ids = sorted(files)
             unknown = [i for i in range(256) if i not in files]
             for _ in range(per_dir):
